@@ -198,6 +198,7 @@ def jq_system(nprod, extra_done=False, cap=1):
     cm, _ = py2ts.load_class_methods('billiard/synchronize.py', 'Condition')
     cenv = cond_env()
     methods = {('self._cond', n): (cm[n], cenv, 'c.') for n in ('wait', 'notify', 'notify_all')}
+    methods_late = True
     env = {
         'self._closed': Obj('const', 'closed', value=0),
         'self._thread': Obj('const', 'thread', value=1),            # the feeder thread exists (not None)
@@ -209,6 +210,7 @@ def jq_system(nprod, extra_done=False, cap=1):
         'self._rlock': Obj('lock', 'R'),
         'self._recv_bytes': Obj('pipe_recv', 'PIPE'),
     }
+    methods[('Queue', 'put')] = (qm['put'], env, 'qp.')          # a subclass calling Queue.put(self, ...) explicitly
     ghosts = {'puts': 0, 'dones': 0, 'puts_before': 0, 'join_ok': 0}
     threads = []
     roles = []
@@ -335,7 +337,7 @@ def _jq(nprod, extra_done, timeout_s):
         detail.append({'property': name, 'status': r['status'], 'K': K, 'unwinding': r.get('unwinding'), 'why': r.get('why')})
         if r['status'] == 'violated':
             return {'status': 'refuted', 'detail': detail, 'cex': {'args': [{'scenario': 'jq', 'nprod': nprod, 'extra_done': extra_done, 'property': name,
-                    'schedule': [(s['thread'], s['fire']) for s in r['schedule']], 'final': r['final']}], 'kwargs': {}},
+                    'schedule': r['schedule'], 'final': r['final'], 'lengths': [len(p) for p in sysm.threads], 'roles': roles}], 'kwargs': {}},
                     'solver_queries': bmc.STATS['queries'], 'solver_time_s': round(bmc.STATS['time'], 2)}
         if r['status'] != 'holds':
             return {'status': 'unknown', 'detail': detail, 'messages': [str(r.get('why') or r.get('result'))],
@@ -349,7 +351,16 @@ def _jq(nprod, extra_done, timeout_s):
     w = bmc.check_property(sysm, K, witness, (), timeout_s)
     ok = w['status'] == 'violated'
     detail.append({'property': 'reachability-witness', 'status': 'sat' if ok else w['status']})
-    return {'status': 'confirmed' if ok else 'unknown', 'detail': detail, 'nontrivial_witness': ok,
+    validated = 0
+    if ok:
+        # model vs implementation: the witness run is replayed step by step on the real JoinableQueue in real threads
+        spec = {'scenario': 'jq', 'nprod': nprod, 'extra_done': extra_done, 'property': 'conformance-witness', 'schedule': w['schedule'],
+                'final': w['final'], 'lengths': [len(p) for p in sysm.threads], 'roles': roles}
+        if replay_jq(spec) is not False:
+            return {'status': 'error', 'detail': detail, 'messages': ['model and implementation diverge on a witness run of the queue scenario']}
+        validated = 1
+        detail.append({'property': 'witness-replayed-on-the-real-classes', 'status': 'conforms'})
+    return {'status': 'confirmed' if ok else 'unknown', 'detail': detail, 'nontrivial_witness': ok, 'traces_validated': validated,
             'solver_queries': bmc.STATS['queries'], 'solver_time_s': round(bmc.STATS['time'], 2),
             'states': bmc.STATS['states'], 'transitions': bmc.STATS['transitions'],
             'samples': [{'scenario': 'JoinableQueue: %d producer(s) || feeder || consumer || joiner' % nprod, 'K': K}]}
@@ -368,9 +379,90 @@ def ob_jq_2(tier):
 
 
 def replay_jq(spec):
-    """a model counterexample of the queue scenarios is reported with its schedule; the threaded replay of C17 covers the Condition part,
-    the queue part is replayed by re-running the model deterministically (no real-thread replay is implemented for queues)"""
+    """native replay: the real JoinableQueue (put / get / task_done / join, with the real Condition inside) in real threads
+    over gated stand-in semaphores and locks; the run must follow the model's schedule step by step (semaphore values
+    are compared after every step) and end as the model says"""
+    import threading
+    import billiard.synchronize as bs
     from harness import hbase
-    hbase.trace('model schedule', spec.get('schedule'))
+    from harness.c17 import Gate, GSem, GLock, Blocked
+    gate = Gate(spec['schedule'])
+    sems = {n: GSem(gate, n, v) for n, v in (('Q', 1), ('B', 0), ('PIPE', 0), ('U', 0), ('S', 0), ('W', 0), ('X', 0))}
+    lockN, lockL, lockR = GLock(gate), GLock(gate), GLock(gate)
+    cond = bs.Condition.__new__(bs.Condition)
+    cond.__setstate__((lockL, sems['S'], sems['W'], sems['X']))
+
+    class Buffer:
+        def append(self, obj):
+            sems['B'].release()
+
+    class NotEmpty:
+        def __enter__(self):
+            return lockN.acquire()
+
+        def __exit__(self, *a):
+            lockN.release()
+
+        def notify(self):
+            pass
+    q = bq.JoinableQueue.__new__(bq.JoinableQueue)
+    q._maxsize = 1
+    q._sem = sems['Q']
+    q._rlock = lockR
+    q._closed = False
+    q._notempty = NotEmpty()
+    q._buffer = Buffer()
+    q._thread = object()
+    q._cond = cond
+    q._unfinished_tasks = sems['U']
+    q._recv_bytes = lambda: (sems['PIPE'].acquire(), pickle.dumps(0))[1]
+    nprod = spec['nprod']
+    ndone = nprod + (1 if spec['extra_done'] else 0)
+    bodies = [(lambda: q.put(0) or 0) for _ in range(nprod)]
+
+    def feeder():
+        for _ in range(nprod):
+            sems['B'].acquire()
+            sems['PIPE'].release()
+        return 0
+
+    def consumer():
+        for _ in range(nprod):
+            q.get()
+        r = 0
+        for _ in range(ndone):
+            try:
+                q.task_done()
+            except ValueError:
+                r = 63
+        return r
+    bodies += [feeder, consumer, (lambda: q.join() or 0)]
+    results, errors = {}, {}
+
+    def run(i, body):
+        gate.tids[threading.get_ident()] = i
+        try:
+            results[i] = body()
+        except Blocked:
+            results[i] = 'blocked'
+        except AssertionError as e:
+            errors[i] = str(e)
+            results[i] = 'assert'
+    threads = [threading.Thread(target=run, args=(i, b), daemon=True) for i, b in enumerate(bodies)]
+    for t in threads:
+        t.start()
+    for t in threads:
+        t.join(30)
+    hbase.trace('native results', results, 'errors', errors, 'diverged', gate.diverged, 'steps', gate.pos, 'of', len(gate.steps))
+    if gate.diverged:
+        hbase.trace('NOT REPRODUCED: model and implementation diverge:', gate.diverged)
+        return True
+    fin = spec['final']
+    for i, (pc, ln) in enumerate(zip(fin['pcs'], spec['lengths'])):
+        ended = pc == ln - 1
+        native_ended = results.get(i) not in ('blocked', 'assert', None)
+        if ended != native_ended:
+            hbase.trace('NOT REPRODUCED: thread %d ended=%s in the model, result %r natively' % (i, ended, results.get(i)))
+            return True
     hbase.REPLAY['tag'] = 'C16:' + str(spec.get('property'))
     return False
